@@ -53,7 +53,9 @@ DIP4 = numpy.array(ISO.DIPOLES4, dtype=float)
 
 # dipoles of the molecules in the `sys` section (non-collinear, different lengths)
 SYS_DIPOLES = [[1.0, 0.8, 0.8], [0.8, 0.8, 0.0], [0.1, -0.5, 0.9]]
-ENERGIES = {"hetero": [12000.0, 12300.0, 12150.0], "homo": [12100.0, 12100.0, 12100.0]}
+ENERGIES = {"hetero": [12000.0, 12300.0, 12150.0], "homo": [12100.0, 12100.0, 12100.0],
+            # sorting these site energies is a cyclic (not self-inverse) permutation of three sites
+            "cyclic": [12300.0, 12000.0, 12150.0], "cyclic2": [12150.0, 12300.0, 12000.0]}
 LINEWIDTHS = {"100": [100.0, 100.0, 100.0], "300": [300.0, 300.0, 300.0],
               "mixed": [100.0, 300.0, 200.0]}
 DEPH_RATES = [1.0 / 100.0, 1.0 / 150.0, 1.0 / 80.0]      # site pure dephasing, 1/fs
@@ -585,6 +587,8 @@ def sections(tier):
     sysc = []
     for n in (2, 3):
         ens = ["hetero"] if quick else ["hetero", "homo"]
+        if n == 3:
+            ens = ens + ["cyclic"] + ([] if quick else ["cyclic2"])
         lws = ["100", "mixed"] if (quick or n == 3) else ["100", "300", "mixed"]
         t2s = [20.0] if quick else [0.0, 20.0]
         for J in (0, 80, -150):
